@@ -844,6 +844,11 @@ class Interp:
             raise Unsupported('nested comprehension')
         g = n.generators[0]
         src = self.eval(g.iter, fr)
+        hook = getattr(self, 'comp_hook', None)
+        if hook is not None:
+            r = hook(self, n, g, src, fr, kind)
+            if r is not None:
+                return r
         if type(src).__name__ == 'OpaqueVal':
             # comprehension over a value we do not model: kept structurally ("swap" = {v: k for k, v in src})
             shape = ('other',)
